@@ -478,6 +478,45 @@ func ruleSibling(c *Ctx) {
 	}
 	c.atLeast("Global/Local handler pairs", nPairs, 9)
 
+	// the six getline handlers store into their target under the same guard on getline's result
+	guards := map[string]string{}
+	for _, cl := range []string{"Getline", "GetlineField", "GetlineGlobal", "GetlineLocal", "GetlineSpecial", "GetlineArray"} {
+		cc := vm.clauses[cl]
+		if cc == nil {
+			continue
+		}
+		var retName string
+		for _, s := range cc.Body {
+			if as, ok := s.(*ast.AssignStmt); ok && len(as.Lhs) == 3 && len(as.Rhs) == 1 {
+				if call, ok := as.Rhs[0].(*ast.CallExpr); ok {
+					if se, ok := call.Fun.(*ast.SelectorExpr); ok && se.Sel.Name == "getline" {
+						retName = as.Lhs[0].(*ast.Ident).Name
+					}
+				}
+			}
+		}
+		for _, s := range cc.Body {
+			if is, ok := s.(*ast.IfStmt); ok && strings.Contains(types.ExprString(is.Cond), retName) && retName != "" {
+				if !strings.Contains(types.ExprString(is.Cond), "err") {
+					guards[cl] = strings.ReplaceAll(types.ExprString(is.Cond), retName, "RET")
+				}
+			}
+		}
+	}
+	if len(guards) >= 5 {
+		ref := guards["GetlineGlobal"]
+		var diff []string
+		for cl, g := range guards {
+			if g != ref {
+				diff = append(diff, cl+": "+g)
+			}
+		}
+		sort.Strings(diff)
+		c.check(len(diff) == 0 && ref == "RET == 1", "getline-guard", vm.clauses["Getline"].Pos(), fmt.Sprintf("all %d getline handlers assign their target exactly when getline returned 1", len(guards)), fmt.Sprintf("getline handlers assign their target under different conditions (reference `%s`): %v: at end of input or on error one form overwrites its target ($0/NF or a variable) while the others leave it alone", ref, diff))
+	} else {
+		c.undecided("getline-guard", token.NoPos, "result guards of the getline handlers not recognised (%d found)", len(guards))
+	}
+
 	// builtin pairs
 	bfd := c.funcDecl("interp", "interp.callBuiltin")
 	if bfd != nil {
